@@ -65,6 +65,77 @@ def sites(fx):
             yield f, bi, t, name, ty, f.locals[t["dst"]["l"]]["ty"]
 
 
+def closure_of(fx, f, t):
+    """the closure function passed (as an aggregate value) to this call"""
+    for a in t["args"][1:]:
+        p = lib.op_place(a)
+        if p is None:
+            continue
+        for _, _, s in lib.stmts(f):
+            if s["k"] == "assign" and s["dst"]["l"] == p["l"] and s["rv"]["k"] == "agg" and s["rv"].get("ak") == "closure":
+                return fx.fns.get(s["rv"]["closure"])
+    return None
+
+
+def fields_read(g, params):
+    """names of fields read (through any projection) from the given parameter locals, following plain copies/derefs"""
+    src = {p: p for p in params}
+    names = {p: set() for p in params}
+    changed = True
+    while changed:
+        changed = False
+        for _, _, s in lib.stmts(g):
+            if s["k"] != "assign":
+                continue
+            rv = s["rv"]
+            pl = None
+            if rv["k"] in ("use", "cast"):
+                pl = lib.op_place(rv["op"])
+            elif rv["k"] in ("ref", "copy_for_deref"):
+                pl = rv["place"]
+            if pl is None or pl["l"] not in src:
+                continue
+            root = src[pl["l"]]
+            fl = [e["n"] for e in (pl.get("p") or []) if isinstance(e, dict) and "n" in e]
+            for n in fl:
+                if n not in names[root]:
+                    names[root].add(n)
+                    changed = True
+            d = s["dst"]["l"]
+            if not s["dst"].get("p") and d not in src:
+                src[d] = root
+                changed = True
+        for _, t in lib.calls(g):
+            for a in t["args"]:
+                pl = lib.op_place(a)
+                if pl is not None and pl["l"] in src:
+                    for e in (pl.get("p") or []):
+                        if isinstance(e, dict) and "n" in e and e["n"] not in names[src[pl["l"]]]:
+                            names[src[pl["l"]]].add(e["n"])
+                            changed = True
+    return names
+
+
+def total_sort(fx, f, t, name, recv_ty):
+    g = closure_of(fx, f, t)
+    if g is None:
+        return False
+    if name.endswith("_by_key"):
+        # key closure: fn(&closure, &Elem) -> K ; total iff K mentions every field of the element struct
+        m = re.search(r"(mos(?:_core)?::[A-Za-z0-9_:]+)", g.locals[2]["ty"])
+        adt = fx.adts.get(m.group(1)) if m else None
+        if not adt or adt["kind"] != "Struct":
+            return False
+        allf = {x["name"] for x in adt["variants"][0]["fields"]}
+        return allf <= fields_read(g, [2])[2]
+    # comparator closure on (key, value) entries of a hash *map*: comparing the keys (.0) only is total because keys are unique
+    if "hash::map::" not in recv_ty or g.argc != 3:
+        return False
+    r = fields_read(g, [2, 3])
+    cmp_called = any(lib.pm(lib.callee(t2)[0], "Ord::cmp") for _, t2 in lib.calls(g))
+    return cmp_called and r[2] == {"0"} and r[3] == {"0"}
+
+
 def classify(fx, for_c14=False):
     """yields (key, fn, term, consumer, verdict, reason) for every hash-ordered consumer site in scope"""
     seen = {}
@@ -81,6 +152,9 @@ def classify(fx, for_c14=False):
             continue
         if name in ("collect", "collect_vec", "extend") and any(dst.startswith(o) for o in ORDERED_DST):
             yield key, f, t, name, "auto", "collected into %s" % dst.split("<")[0]
+            continue
+        if name in ("sorted_by_key", "sorted_by", "sort_by_key", "sort_by") and total_sort(fx, f, t, name, ty):
+            yield key, f, t, name, "auto", "sorted on a key that identifies the element (all fields of the element / the unique map key)"
             continue
         tab = TABLE.get(kk)
         if tab and seen[kk] <= tab[0]:
